@@ -798,9 +798,58 @@ impl<'a> Printer<'a> {
                 self.p("comatch");
                 for cl in clauses {
                     let decl = self.prog.codatas[*cd].dtors[cl.dtor].clone();
+                    // clause-level edits: 0 unknown destructor; 1 the last parameter moved into a `fn` (another
+                    // spelling of the same clause); 2 that spelling *next to* the original, 3 the clause twice,
+                    // 4 the clause dropped (2–4 are free-form: only totality of the front end is demanded)
+                    let edit = self.mut_site(8).map(|ch| ch % 5);
+                    let n_params = cl.params.len();
+                    match edit {
+                        | Some(1) if n_params >= 1 => self.applied("clause-parameter-moved-into-fn", true, "Codata", "comatch-clause"),
+                        | Some(2) if n_params >= 1 => self.applied_free("clause-and-its-split-spelling"),
+                        | Some(3) => self.applied_free("clause-duplicated"),
+                        | Some(4) => {
+                            self.applied_free("clause-dropped");
+                            continue;
+                        }
+                        | Some(_) => self.applied("unknown-destructor", false, "Codata", "comatch-clause"),
+                        | None => {}
+                    }
+                    let split_spelling = matches!(edit, Some(1) | Some(2)) && n_params >= 1;
+                    let twice = matches!(edit, Some(3)) || (matches!(edit, Some(2)) && n_params >= 1);
+                    if twice {
+                        // the original spelling first (no further sites inside: the edit is already applied)
+                        self.p("|");
+                        self.p(&decl.name);
+                        for (p, _) in &cl.params {
+                            self.pat(p);
+                        }
+                        self.p("=>");
+                        let mut rt0 = decl.result.clone();
+                        for a in decl.params[cl.params.len()..].iter().rev() {
+                            rt0 = CTy::Arrow(Box::new(a.clone()), Box::new(rt0));
+                        }
+                        self.comp(&cl.body, &rt0);
+                    }
+                    if split_spelling {
+                        self.p("|");
+                        self.p(&decl.name);
+                        for (p, _) in &cl.params[..n_params - 1] {
+                            self.pat(p);
+                        }
+                        self.p("=>");
+                        self.p("fn");
+                        let (lp, la) = cl.params[n_params - 1].clone();
+                        self.pat_ann(&lp, &la);
+                        self.p("=>");
+                        let mut rt0 = decl.result.clone();
+                        for a in decl.params[cl.params.len()..].iter().rev() {
+                            rt0 = CTy::Arrow(Box::new(a.clone()), Box::new(rt0));
+                        }
+                        self.comp(&cl.body, &rt0);
+                        continue;
+                    }
                     self.p("|");
-                    if self.mut_site(8).is_some() {
-                        self.applied("unknown-destructor", false, "Codata", "comatch-clause");
+                    if matches!(edit, Some(0)) || (matches!(edit, Some(1) | Some(2)) && n_params == 0) {
                         self.p(".zq");
                     } else {
                         self.p(&decl.name);
